@@ -518,13 +518,17 @@ def run_obligation(ob, work, extra_defs=(), want_trace_for=None):
         def brief(p):
             return {"property": p["property"], "description": p["description"], "entry": p.get("entry"),
                     "site": "%s:%s:%s" % (p["file"].replace(REPO + "/", ""), p["function"], p["line"])}
-        if failed_U:
+        if failed_P or failed_M:
+            # a counterexample inside the explored bound is a counterexample, whether or not some loop also needs more
+            # unwinding (e.g. a change that makes a loop run 4097 times); it still has to replay natively
+            res["status"] = "fail"
+            res["failed"] = [brief(p) for p in failed_P + failed_M]
+            if failed_U:
+                res["detail"] = "also: unwinding assertion failed: " + ", ".join(p["property"] for p in failed_U[:3])
+        elif failed_U:
             res["status"] = "bound"
             res["detail"] = "unwinding assertion failed (bound too small): " + ", ".join(p["property"] for p in failed_U[:5])
             res["failed"] = [brief(p) for p in failed_U]
-        elif failed_P or failed_M:
-            res["status"] = "fail"
-            res["failed"] = [brief(p) for p in failed_P + failed_M]
         elif other:
             res["status"] = "error"
             res["detail"] = "undecided properties: " + ", ".join("%s=%s" % (p["property"], p["status"]) for p in other[:5])
